@@ -56,6 +56,7 @@ var (
 	junk    = flag.Int("junk", 0, "add an interleaving case on rocksdb with this many extra files in the data directory (K1R demonstration)")
 	exh     = flag.Bool("exh", false, "add the exhaustive small-scope purge/latest cases")
 	nInter  = flag.Int("ninter", 40, "trials of the apply-loop interleaving per engine (case kind I)")
+	nHll    = flag.Int("nhll", 12, "rounds of the HyperLogLog-cache backup/restore case (HR) per engine")
 	nCrash  = flag.Int("ncrash", 1, "timed kills per engine and kind (CB/CR/CF); 0 = no crash cases at all")
 	nFetch  = flag.Int("nfetch", 1, "fetch-after-lineage-reset scenarios per engine")
 	engines = flag.String("engines", "pebble,rocksdb,mem", "engines for the traces")
@@ -370,6 +371,9 @@ func generate(r *hx.Rng) []cs {
 			cases = append(cases, cs{id: next(), kind: "CR", f: []string{e, pt, "64", sd()}})
 			cases = append(cases, cs{id: next(), kind: "CRR", f: []string{e, pt, "0", sd()}})
 		}
+		// HyperLogLog write cache around backup and restore, on a store with a 16 KB write buffer and on a default one
+		cases = append(cases, cs{id: next(), kind: "HR", f: []string{e, fmt.Sprint(*nHll), sd(), "16"}})
+		cases = append(cases, cs{id: next(), kind: "HR", f: []string{e, fmt.Sprint(*nHll / 2), sd(), "0"}})
 		// two remote sources with a snapshot of the same (term,index)
 		cases = append(cases, cs{id: next(), kind: "RS", f: []string{e, sd()}})
 		// checkpoint size classes: just below / above 1 MiB, a few MiB (the mem engine's dump file is read in pieces)
@@ -608,6 +612,17 @@ func runCase(c cs, co, io, sk, kn *hx.Out) {
 				mode = c.f[3]
 			}
 			io.Printf("%s\t%s\n", c.id, failedFetch(c.f[0], kb, sd, mode))
+		case "HR":
+			n, _ := strconv.Atoi(c.f[1])
+			sd, _ := strconv.ParseInt(c.f[2], 10, 64)
+			wb, _ := strconv.Atoi(c.f[3])
+			co.Printf("%s\tHR\t%s\n", c.id, strings.Join(c.f, "\t"))
+			tr, bad, err := hllRestore(c.f[0], n, sd, wb)
+			if err != nil {
+				io.Printf("%s\terr after %d rounds: %v\n", c.id, tr, err)
+			} else {
+				io.Printf("%s\trounds=%d restore_differs=%d\n", c.id, tr, bad)
+			}
 		case "RS":
 			sd, _ := strconv.ParseInt(c.f[1], 10, 64)
 			co.Printf("%s\tRS\t%s\t%s\n", c.id, c.f[0], c.f[1])
